@@ -132,6 +132,7 @@ def python_side_env():
                 int=pymodel.IntShadow, float=pymodel.FloatShadow, complex=pymodel.ComplexShadow,
                 str=pymodel.StrShadow, bytes=pymodel.BytesShadow, bool=pymodel.BoolShadow,
                 operator=pymodel.OperatorShadow(), _validate_float=c_validate_float,
+                RangeTypes=(int, float, pymodel.IntShadow, pymodel.FloatShadow),
                 _validate_complex_number=c_validate_complex_number):
         yield
 
